@@ -13,7 +13,13 @@ Oracles (each with its own key):
   grad/..        covariance_and_gradients: K == build_covariance, every gradient == exact partial derivative
   compose/..     composite value / gradient list == sum / concatenation of stand-alone component instances
   mean/..        build_mean == __call__ at the data == formula; gradients == exact partial derivatives
+  history/..     differential: in every short history of constructions (+, ChangePoint, CompositeCovariance on live objects incl.
+                 earlier composites) and uses (pass_spatial_data, estimate_hyperpar_bounds, evaluations) every live object keeps
+                 exactly the n_params / labels / bounds / value / gradients of a freshly built object of its own expression
+                 (history/<family of the changed object>/<attribute>/exposed-by:<operation kind>)
 """
+import json
+
 import numpy as np
 
 from mc.core import HarnessError, LibFailure, fail, lib
@@ -516,7 +522,374 @@ def ev_selftest(case):
     return {"fails": [], "n": 0, "tags": {"selftest"}}
 
 
-EVALUATORS = {"kernel": ev_kernel, "userbounds": ev_userbounds, "mean": ev_mean, "selftest": ev_selftest}
+# ------------------------------------------------------------------------------------------ composition histories
+# A history is a sequence of operations on ONE pool of live objects that starts with the leaf kernels:
+#   ["add", i, j]   pool.append(pool[i] + pool[j])                     (either operand may be an earlier composite)
+#   ["cp", i, j]    pool.append(ChangePoint(kernels=[pool[i], pool[j]]))
+#   ["comp", i, j]  pool.append(CompositeCovariance([pool[i], pool[j]]))
+#   ["pass", i]     pool[i].pass_spatial_data(X)                       (always the same X: components are shared objects)
+#   ["bounds", i]   pool[i].estimate_hyperpar_bounds(y)                (always the same y)
+#   ["eval", i]     build_covariance / covariance_and_gradients / __call__ on pool[i]   (observe="final" only)
+# Every pool entry has the expression it was built from (a nested binary spec).  The property says that the value,
+# gradients, labels, bounds and number of parameters of a composite are those of ITS components – so at any later time
+# they must be what a freshly built object of the same expression (new leaves, built in one go, nothing else alive)
+# gives, whatever has been built from, or done to, other objects in between.
+HIST_KINDS = ("add", "cp", "comp", "pass", "bounds", "eval")
+
+
+def hist_init(leaves):
+    return [{"spec": s, "key": json.dumps(s), "leaves": {i}, "passed": False, "b": "none"} for i, s in enumerate(leaves)]
+
+
+def hist_apply_sym(pool, op):
+    """book-keeping shared by run() (to enumerate) and the evaluator: what each entry is and what was done to it"""
+    kd = op[0]
+    if kd in ("add", "cp", "comp"):
+        a, b = pool[op[1]], pool[op[2]]
+        spec = ["cp", 0, a["spec"], b["spec"]] if kd == "cp" else [kd, a["spec"], b["spec"]]
+        pool.append({"spec": spec, "key": json.dumps(spec), "leaves": a["leaves"] | b["leaves"], "passed": False, "b": "none"})
+    elif kd == "pass":
+        e = pool[op[1]]
+        e["passed"] = True
+        for l in e["leaves"]:  # a composite cannot be evaluated unless it hands the data to its leaves
+            pool[l]["passed"] = True
+    elif kd == "bounds":
+        e = pool[op[1]]
+        e["b"] = "direct"
+        for f in pool:  # entries sharing a leaf may or may not have had bounds stored on them: not compared
+            if f is not e and f["b"] == "none" and (f["leaves"] & e["leaves"]):
+                f["b"] = "indirect"
+    elif kd != "eval":
+        raise HarnessError(f"unknown history operation {op}")
+
+
+def hist_next_ops(pool, builders, observe):
+    m = len(pool)
+    ops = [[kd, i, j] for kd in builders for i in range(m) for j in range(m) if i != j]
+    ops += [["pass", i] for i in range(m)]
+    ops += [["bounds", i] for i in range(m) if pool[i]["passed"]]
+    if observe == "final":
+        ops += [["eval", i] for i in range(m) if pool[i]["passed"]]
+    return ops
+
+
+def hist_text(op):
+    kd = op[0]
+    if kd == "add":
+        return f"k{{new}} = k{op[1]} + k{op[2]}"
+    if kd == "cp":
+        return f"k{{new}} = ChangePoint([k{op[1]}, k{op[2]}])"
+    if kd == "comp":
+        return f"k{{new}} = CompositeCovariance([k{op[1]}, k{op[2]}])"
+    return {"pass": "k%d.pass_spatial_data(x)", "bounds": "k%d.estimate_hyperpar_bounds(y)", "eval": "evaluate k%d"}[kd] % op[1]
+
+
+def hist_describe(leaves, ops):
+    out = [f"k{i} = {s}()" for i, s in enumerate(leaves)]
+    m = len(leaves)
+    for op in ops:
+        t = hist_text(op)
+        if "{new}" in t:
+            t = t.replace("{new}", str(m))
+            m += 1
+        out.append(t)
+    return out
+
+
+def _bounds_list(b):
+    return None if b is None else [tuple(float(v) for v in p) for p in b]
+
+
+def _same_bounds(a, b):
+    if a is None or b is None:
+        return a is None and b is None
+    return len(a) == len(b) and all(np.array_equal(np.asarray(p), np.asarray(q), equal_nan=True) for p, q in zip(a, b))
+
+
+_HREF = {}  # reference (harness-only, pure) values per (expression, data, pattern); shared by the cases a worker runs
+
+
+def hist_reference(key, spec, n, d, design, seed, pat):
+    k = (key, n, d, design, seed, pat)
+    r = _HREF.get(k)
+    if r is None:
+        X = R.design(design, n, d, seed)
+        theta = R.theta_for(spec, X, pat)
+        Dk, Dn = amp_sum(spec, theta, n, d)
+        r = (theta, R.data_cov_float(spec, theta, X), R.cross_cov_float(spec, theta, X, X, n), 64 * EPS * R.condition_factor(spec, theta, X) * (Dk + Dn))
+        _HREF[k] = r
+    return r
+
+
+def _pack(ev):
+    """(Kb, Kg, grads, Kc) -> comparable bytes with shapes: equality of these is bit-for-bit equality of the results"""
+    Kb, Kg, grads, Kc = ev
+    return [(a.shape, np.ascontiguousarray(a, dtype=float).tobytes()) for a in (Kb, Kg, Kc)], [(g.shape, np.ascontiguousarray(g, dtype=float).tobytes()) for g in grads]
+
+
+class _Hist:
+    """per-case context: the data, and per expression the results of freshly built objects (each computed once per case)"""
+
+    def __init__(self, case):
+        self.case = case
+        self.n, self.d = case["n"], case["d"]
+        self.X = R.design(case["design"], self.n, self.d, case["seed"])
+        self.y = R.y_values(self.X)
+        self.patterns = (case["pattern"] % 9, (case["pattern"] + 4) % 9)
+        self.fresh = {}
+        self.slack = {}
+        self.nev = 0
+
+    def get(self, ent):
+        key = ent["key"]
+        f = self.fresh.get(key)
+        if f is not None:
+            return f
+        spec, n, d, X, c = ent["spec"], self.n, self.d, self.X, self.case
+        f = {"P": R.n_params(spec, n, d), "fam": R.family(spec), "name": R.spec_name(spec), "th": [], "ev": [], "packed": [], "oneshot": []}
+        # one new object per hyper-parameter vector, and one for the bounds: a fresh object has no history at all
+        for pat in self.patterns:
+            theta, Kref, Kpref, tol = hist_reference(key, spec, n, d, c["design"], c["seed"], pat)
+            o = R.make_kernel(spec)
+            with lib("fresh.pass_spatial_data"):
+                o.pass_spatial_data(X.copy())
+            f["P_fresh"] = o.n_params
+            f["labels"] = list(o.hyperpar_labels)
+            f["b_none"] = _bounds_list(o.bounds)
+            f["th"].append(theta)
+            if o.n_params != len(theta):
+                f["ev"].append(None)
+                f["packed"].append(None)
+                f["oneshot"].append(("n_params", f"a freshly built {f['name']} has n_params {o.n_params}, its components have {f['P']}"))
+                continue
+            ev = self.evaluate(o, theta, "fresh.")
+            f["ev"].append(ev)
+            f["packed"].append(_pack(ev))
+            # the fresh object against the documented formula of its components (same oracle as value/.. of ev_kernel);
+            # a history object that equals the fresh one bit-for-bit inherits this
+            Kb = ev[0]
+            if Kb.shape != (n, n):
+                f["oneshot"].append(("value-shape", f"build_covariance of a freshly built {f['name']} has shape {Kb.shape}"))
+                continue
+            diff = Kb - Kref
+            e = float(np.abs(diff[~np.eye(n, dtype=bool)]).max()) if n > 1 else 0.0
+            dj = np.diag(diff)
+            jmax = JIT * np.diag(Kpref)
+            self.slack["history/fresh-value-vs-formula-offdiag"] = max(self.slack.get("history/fresh-value-vs-formula-offdiag", 0.0), e / tol)
+            if e > tol or (dj < -tol).any() or (dj > jmax + tol).any():
+                f["oneshot"].append(("value-vs-formula", f"build_covariance of a freshly built {f['name']} differs from the documented formula: off-diagonal {e:.3e} (tol {tol:.2e}), diagonal excess {dj.tolist()}"))
+        o = R.make_kernel(spec)
+        with lib("fresh.estimate_hyperpar_bounds"):
+            o.pass_spatial_data(X.copy())
+            o.estimate_hyperpar_bounds(self.y.copy())
+        f["b_direct"] = _bounds_list(o.bounds)
+        self.nev += 3
+        self.fresh[key] = f
+        return f
+
+    def evaluate(self, o, theta, pre=""):
+        with lib(pre + "build_covariance"):
+            Kb = np.asarray(o.build_covariance(theta.copy()))
+        with lib(pre + "covariance_and_gradients"):
+            Kg, grads = o.covariance_and_gradients(theta.copy())
+        with lib(pre + "call(x,x)"):
+            Kc = np.asarray(o(self.X, self.X, theta.copy()))
+        self.nev += 3
+        return Kb, np.asarray(Kg), [np.asarray(g) for g in grads], Kc
+
+
+def hist_observe(H, obj, ent, which):
+    """differences between a live history object and what its expression says: list of (attribute, text)"""
+    f = H.get(ent)
+    out = [("oneshot-" + a, t) for a, t in f["oneshot"]]
+    with lib("read n_params/labels/bounds"):
+        P, labels, bnd = obj.n_params, list(obj.hyperpar_labels), obj.bounds
+    if P != f["P"]:
+        out.append(("n_params", f"n_params is {P}, the components of {f['name']} have {f['P']}"))
+    if labels != f["labels"]:
+        out.append(("labels", f"labels are {labels}, a freshly built {f['name']} has {f['labels']}"))
+    if ent["b"] in ("none", "direct"):
+        bnd = _bounds_list(bnd)
+        if not _same_bounds(bnd, f["b_" + ent["b"]]):
+            out.append(("bounds", f"bounds are {bnd}, a freshly built {f['name']} ({'estimated' if ent['b'] == 'direct' else 'never estimated'}) has {f['b_' + ent['b']]}"))
+    if P != f["P"]:
+        return out
+    for w in which:
+        theta, fe, fp = f["th"][w], f["ev"][w], f["packed"][w]
+        if fe is None:
+            continue
+        ev = H.evaluate(obj, theta)
+        mats, grads = _pack(ev)
+        # bit-for-bit what a fresh object of the same expression returns (identical arithmetic, so no tolerance)
+        if mats != fp[0]:
+            for attr, a, b in (("value", ev[0], fe[0]), ("value-from-covariance_and_gradients", ev[1], fe[1]), ("pairwise-call", ev[3], fe[3])):
+                if a.shape != b.shape or not np.array_equal(a, b, equal_nan=True):
+                    dv = float(np.abs(a - b).max()) if a.shape == b.shape else float("inf")
+                    out.append((attr, f"{attr} (shape {a.shape}) differs from that of a freshly built {f['name']} (shape {b.shape}) by {dv:.3e}"))
+        if grads != fp[1]:
+            if len(grads) != len(fp[1]):
+                out.append(("gradient-count", f"{len(grads)} gradient matrices, a freshly built {f['name']} returns {len(fp[1])}"))
+            else:
+                badp = [p for p, (a, b) in enumerate(zip(grads, fp[1])) if a != b]
+                out.append(("gradients", f"gradients w.r.t. parameters {badp} differ from those of a freshly built {f['name']}"))
+    return out
+
+
+def hist_run(H, leaves, ops, observe, seen, fails, tags):
+    """execute one history from scratch, checking after every operation; returns False at the first discrepancy"""
+    from inference.gp.covariance import ChangePoint, CompositeCovariance
+
+    pool = hist_init(leaves)
+    objs = [R.make_kernel(s) for s in leaves]
+
+    def report(t, opkind, i, attr, text):
+        ent = pool[i]
+        key = f"history/{R.family(ent['spec'])}/{attr}/exposed-by:{opkind}"
+        seen[key] = seen.get(key, 0) + 1
+        if seen[key] == 1:
+            fails.append(
+                fail(
+                    key,
+                    f"k{i} (built as {R.spec_name(ent['spec'])}) after [{'; '.join(hist_describe(leaves, ops[:t]))}]: {text}",
+                    history=hist_describe(leaves, ops[:t]),
+                    ops=ops[:t],
+                    victim=i,
+                    victim_expression=R.spec_name(ent["spec"]),
+                    n=H.n,
+                    d=H.d,
+                    reproduce=dict(H.case, prefix=ops[:t], depth=t),
+                )
+            )
+
+    def check(t, opkind, idx, which):
+        ok = True
+        for i in idx:
+            if not pool[i]["passed"]:
+                continue
+            try:
+                diffs = hist_observe(H, objs[i], pool[i], which)
+            except LibFailure as e:
+                diffs = [(f"raises:{e.exc_type}", f"{e}")]
+            if diffs:  # the first differing attribute (layout before values) names the failure; the rest is listed with it
+                report(t, opkind, i, diffs[0][0], "; ".join(text for _, text in diffs[:4]))
+                ok = False
+        return ok
+
+    X, y = H.X, H.y
+    for t, op in enumerate(ops):
+        kd = op[0]
+        try:
+            if kd == "add":
+                with lib("k + k"):
+                    objs.append(objs[op[1]] + objs[op[2]])
+            elif kd == "cp":
+                with lib("ChangePoint"):
+                    objs.append(ChangePoint(kernels=[objs[op[1]], objs[op[2]]]))
+            elif kd == "comp":
+                with lib("CompositeCovariance"):
+                    objs.append(CompositeCovariance([objs[op[1]], objs[op[2]]]))
+            elif kd == "pass":
+                with lib("pass_spatial_data"):
+                    objs[op[1]].pass_spatial_data(X.copy())
+            elif kd == "bounds":
+                with lib("estimate_hyperpar_bounds"):
+                    objs[op[1]].estimate_hyperpar_bounds(y.copy())
+            H.nev += 1
+        except LibFailure as e:
+            report(t + 1, kd, op[1], f"raises:{e.exc_type}", f"{hist_text(op).replace('{new}', 'new')} raised {e}")
+            return False
+        hist_apply_sym(pool, op)
+        if kd == "eval":
+            ok = check(t + 1, kd, [op[1]], (t % 2,))
+        elif observe == "each":
+            ok = check(t + 1, kd, range(len(pool)), (t % 2,))
+        else:
+            ok = True
+        if not ok:
+            return False
+    # ---- final audit: as they are (already done after the last operation when observe == "each"); after every object has
+    # been given the data again; after bounds have been estimated for every object (layout and bounds only)
+    T = len(ops)
+    if observe != "each" and not check(T, "audit", range(len(pool)), (T % 2,)):
+        return False
+    try:
+        for i, o in enumerate(objs):
+            with lib("audit.pass_spatial_data"):
+                o.pass_spatial_data(X.copy())
+            hist_apply_sym(pool, ["pass", i])
+    except LibFailure as e:
+        report(T, "audit-pass", i, f"raises:{e.exc_type}", f"pass_spatial_data raised {e}")
+        return False
+    if not check(T, "audit-pass", range(len(pool)), ((T + 1) % 2,)):
+        return False
+    try:
+        for i, o in enumerate(objs):
+            with lib("audit.estimate_hyperpar_bounds"):
+                o.estimate_hyperpar_bounds(y.copy())
+            hist_apply_sym(pool, ["bounds", i])
+    except LibFailure as e:
+        report(T, "audit-bounds", i, f"raises:{e.exc_type}", f"estimate_hyperpar_bounds raised {e}")
+        return False
+    if not check(T, "audit-bounds", range(len(pool)), ()):
+        return False
+    # what this history exercised: shape of the history (operation kinds), and whether an earlier composite was re-used
+    reused = any(op[0] in ("add", "cp", "comp") and max(op[1], op[2]) >= len(leaves) for op in ops)
+    tags.add("history:" + ">".join(op[0] for op in ops) + (",reuses-composite" if reused else "") + f",observe={observe}")
+    return True
+
+
+def ev_history(case):
+    """all histories that extend case['prefix'] up to case['depth'] operations (depth == len(prefix): that one history)"""
+    leaves, depth, observe = case["leaves"], case["depth"], case["observe"]
+    builders = case.get("builders", ["add", "cp"])
+    H = _Hist(case)
+    seen, fails, tags = {}, [], set()
+    count = [0]
+
+    # breadth first, so that the first counterexample of a block is a shortest one; a failing history is not extended
+    frontier = [[list(op) for op in case["prefix"]]]
+    while frontier:
+        nxt = []
+        for ops in frontier:
+            count[0] += 1
+            if hist_run(H, leaves, ops, observe, seen, fails, tags) and len(ops) < depth:
+                pool = hist_init(leaves)
+                for op in ops:
+                    hist_apply_sym(pool, op)
+                nxt += [ops + [op] for op in hist_next_ops(pool, builders, observe)]
+        frontier = nxt
+    for f in fails:
+        f["occurrences_in_case"] = seen[f["key"]]
+    tags.add(f"history-leaves={'/'.join(leaves)},d={case['d']},n={case['n']},observe={observe}")
+    return {
+        "fails": fails[:30],
+        "n": H.nev,
+        "tags": tags,
+        "slack": H.slack,
+        "sample": {"leaves": leaves, "prefix": hist_describe(leaves, case["prefix"]), "histories": count[0], "expressions": len(H.fresh)},
+    }
+
+
+def hist_prefixes(leaves, builders, observe, length):
+    """all histories of exactly ``length`` operations (the blocks handed to the workers)"""
+    out = []
+
+    def rec(ops, pool):
+        if len(ops) == length:
+            out.append(ops)
+            return
+        for op in hist_next_ops(pool, builders, observe):
+            p2 = [dict(e, leaves=set(e["leaves"])) for e in pool]
+            hist_apply_sym(p2, op)
+            rec(ops + [op], p2)
+
+    rec([], hist_init(leaves))
+    return out
+
+
+HIST_LEAVES = [["SE", "WN", "RQ"], ["RQ", "SE", "HN"], ["SE", "SE", "WN"], ["WN", "RQ", "SE"], ["RQ", "RQ", "SE"], ["SE", "HN", "SE"]]
+
+EVALUATORS = {"kernel": ev_kernel, "userbounds": ev_userbounds, "mean": ev_mean, "selftest": ev_selftest, "history": ev_history}
 
 
 def run(ck):
@@ -565,15 +938,57 @@ def run(ck):
                 continue
             st.append({"spec": spec, "n": 3 if quick else 4, "d": d, "pattern": (ki + seed) % 3, "seed": seed})
     ck.run_cases("selftest", st)
+    # ---- composition histories: every sequence of <= depth operations on one pool of live objects
+    hnd = [(3, 1), (4, 2), (3, 2), (4, 1)]
+    L2 = [["SE", "WN"], ["RQ", "SE"], ["SE", "SE"], ["SE", "HN"]]
+    if quick:
+        # (leaves, constructors, depth, block prefix length, observation modes)
+        plans = [(HIST_LEAVES[seed % len(HIST_LEAVES)], ["add", "cp"], 3, 2, ["each"]), (HIST_LEAVES[(seed + 1) % len(HIST_LEAVES)], ["add", "cp"], 3, 2, ["final"])]
+    else:
+        plans = [(lv, ["add", "cp", "comp"], 3, 2, ["each", "final"]) for lv in HIST_LEAVES]
+        plans += [(L2[(seed + i) % len(L2)], ["add", "cp"], 4, 3, ["each", "final"]) for i in range(2)]
+    hcases = []
+    hspecs = {}
+    for i, (lv, builders, depth, plen, modes) in enumerate(plans):
+        for observe in modes:
+            n, d = hnd[(seed + i + (observe == "final")) % len(hnd)]
+            base = {"leaves": lv, "builders": builders, "observe": observe, "n": n, "d": d, "design": "regular", "pattern": (seed + 2 * i) % 9, "seed": seed}
+            for l in range(plen + 1):  # the short histories themselves (each followed by the final audit), simplest first
+                hcases += [dict(base, prefix=p, depth=l) for p in hist_prefixes(lv, builders, observe, l)]
+            hcases += [dict(base, prefix=p, depth=depth) for p in hist_prefixes(lv, builders, observe, plen)]
+        if not quick and depth == 3:
+            # the expressions that two constructions can produce, as one-shot objects through every oracle of ev_kernel
+            for p in hist_prefixes(lv, builders, "each", 2):
+                pool = hist_init(lv)
+                for op in p:
+                    hist_apply_sym(pool, op)
+                for e in pool[len(lv):]:
+                    hspecs.setdefault(R.spec_name(e["spec"]) + repr(e["spec"]), e["spec"])
+    ck.run_cases("history", hcases, chunk=1)
+    if hspecs:
+        ck.run_cases("kernel", [{"spec": s, "n": 4, "d": 2, "design": "regular", "pattern": (q + seed) % 9, "seed": seed, "classes": False} for q, s in enumerate(hspecs.values())])
+    ck.extra["history_plans"] = [{"leaves": lv, "constructors": b, "depth": dp, "observe": m} for lv, b, dp, _, m in plans]
     ck.rule = (
         "every element of {%d kernel compositions (leaves, sums built with + and with the constructor incl. nested, change-points with 2,3,4 kernels, "
         "nested/summed change-points, change-point axis 0/1)} x {(n,d)} x {point designs: regular, exact duplicates, near-duplicates, permuted+stretched} x "
         "{hyper-parameter level patterns}; three mean functions on the same (n,d) x designs x patterns; a case is distinct by (kernel, n, d, design) and by "
-        "(family, pattern); block shapes and bound kinds exercised are counted too" % len(KERNELS)
+        "(family, pattern); block shapes and bound kinds exercised are counted too. Composition histories: every sequence of <= depth operations "
+        "(quick 3; thorough 3 with three leaves and 4 with two) on one pool of live objects that starts with the leaf kernels, over {k_new = k_i + k_j, "
+        "ChangePoint([k_i, k_j]) [, CompositeCovariance([k_i, k_j])] for all ordered pairs of live objects incl. earlier composites on either side, "
+        "k_i.pass_spatial_data(x), k_i.estimate_hyperpar_bounds(y) [, evaluate k_i]}; after every operation (observe=each) or only where the history "
+        "says so and at the end (observe=final), and again after all objects were re-given the data and after bounds were estimated for all, every "
+        "live object must have exactly (bit for bit) the n_params, labels, bounds, build_covariance, covariance_and_gradients and __call__ results "
+        "of a freshly built object of its own expression (itself checked against the documented formula); hyper-parameters alternate between two "
+        "patterns along the history. A history is counted by its sequence of operation kinds, whether it re-uses a composite, and the observation mode"
+        % len(KERNELS)
     )
     ck.assume("continuous inputs are represented by the listed deterministic point designs (n <= 8, d <= 3) and three levels per hyper-parameter block")
     ck.assume("jitter: any diagonal addition in [0, 1e-10*K_ii] is accepted as the documented 'small values added to the diagonal'; its exact size is not pinned")
     ck.assume("labels: a composite may prefix the component's label (suffix match accepted); mean functions may expand about the data centroid or the origin")
     ck.assume("hyper-parameter bounds are compared only where the library can estimate them (n >= 2, no coincident points)")
+    ck.assume("composition histories use one data set (x, y) for all objects of a history, because composites share their component objects by design "
+              "(giving different data to two composites that share a leaf legitimately changes both); bounds of an object are compared only if "
+              "estimate_hyperpar_bounds was called on it directly or on nothing that shares a leaf with it; histories are bounded by the stated depth "
+              "and by n in {3,4}, d in {1,2}")
     ck.extra["kernels"] = [R.spec_name(s) for s in KERNELS]
     ck.extra["nd"] = nd
